@@ -1,6 +1,6 @@
 (* C20_Model.v — model of plugin installation in notation-go. Definitions only.
    Mirrors (statement by statement, as the code is after the fix commits
-   3438892, 6476a8b, 5c2ad66 and 9291f82):
+   3438892, 6476a8b, 5c2ad66, 9291f82 and 30cc14e):
      plugin/manager.go       CLIManager.Install, Uninstall, Get, List,
                              validatePluginName, parsePluginFromDir
      plugin/manager_unix.go  binName, isExecutableFile, parsePluginName, setExecutable
@@ -104,20 +104,22 @@ Definition mask (f : file) : file := F (f_name f) (N.land (f_mode f) 493) (f_cid
 Definition bin_prefix : string := "notation-".
 Definition bin_name (n : string) : string := bin_prefix ++ n.
 
-(* parsePluginName *)
-Definition pname_of (fname : string) : option string :=
-  if has_prefix bin_prefix fname then
-    match drop 9 fname with EmptyString => None | n => Some n end
-  else None.
-
-Definition is_cand (f : file) : bool :=
-  match pname_of (f_name f) with Some _ => true | None => false end.
-
 (* validatePluginName *)
 Definition valid_name (n : string) : bool :=
   negb (String.eqb n "") && negb (String.eqb n ".") && negb (String.eqb n "..")
   && negb (contains_byte "/"%char n) && negb (contains_byte "\"%char n)
   && negb (contains_byte Ascii.zero n).
+
+(* parsePluginName (after 30cc14e: the name part must pass validatePluginName, so that
+   notation-. and notation-.. are not plugin file names) *)
+Definition pname_of (fname : string) : option string :=
+  if has_prefix bin_prefix fname then
+    let n := drop 9 fname in
+    if valid_name n then Some n else None
+  else None.
+
+Definition is_cand (f : file) : bool :=
+  match pname_of (f_name f) with Some _ => true | None => false end.
 
 (* ---------- the plugin root ---------- *)
 Definition str_cmp (a b : string) : comparison := bs_cmp (bytes a) (bytes b).
